@@ -12,7 +12,7 @@ use std::collections::HashMap;
 pub static META: Meta = Meta {
     id: "C36",
     level: "exploration",
-    rule: "(a) bloom: random key sets (ints, strings, Values of every kind incl. float edge values, tuples) inserted into filters of every construction (new(n,p) for n in 1..10^5 and p from 1e-9 to 0.999999, with_params incl. (0,0),(1,1),(63,40),(65,3), builder/build_from, after clear): every inserted key must test positive at every later point; (b) hash index: random histories of insert/remove/build_from_tuples over a small tuple domain with key columns of 0-2 positions; after every step get/get_with_bloom/probe of every candidate key must equal, as a multiset, the model's tuples with that key, and len/num_keys/num_tuples must equal the model's; distinct = distinct key set / history; non-trivial = at least 2 keys or 3 operations",
+    rule: "(a) bloom: random key sets (ints, strings, Values of every kind incl. float edge values, tuples) inserted into filters of every construction (new(n,p) for n in 1..10^5 and p from 1e-9 to 0.999999, with_params incl. (0,0),(1,1),(63,40),(65,3), builder/build_from, after clear): every inserted key must test positive at every later point; (b) hash index: growth histories inserting 150-5000 distinct keys one by one into an index created for 0-1000 keys (probe of the key just written, full sweep every 97 ops), and random histories of insert/remove/build_from_tuples over a small tuple domain with key columns of 0-2 positions; after every step get/get_with_bloom/probe of every candidate key must equal, as a multiset, the model's tuples with that key, and len/num_keys/num_tuples must equal the model's; distinct = distinct key set / history; non-trivial = at least 2 keys or 3 operations",
     assumptions: &["the multiset model (HashMap<key, Vec<tuple>>) uses Value's own Eq/Hash for keys, as the property's 'key columns equal the probe key' does"],
     floor: 200,
     watchdog: (0, 0),
@@ -214,12 +214,75 @@ fn index_case(ctx: &mut Ctx, k: u64) {
     }
 }
 
+/// many distinct keys inserted one by one (an index growing far past the size it was created for),
+/// interleaved with removals; the key just written is probed immediately, everything periodically
+fn growth_case(ctx: &mut Ctx, k: u64) {
+    let mut r = ctx.rng(k);
+    let expected = [0usize, 1, 10, 100, 128, 1000][r.below(6)];
+    let target = if ctx.quick() { 150 + r.below(1200) } else { 150 + r.below(5000) };
+    let mut idx = HashIndex::new(JoinKeySpec::new("r", vec![0]), expected);
+    let mut model: HashMap<i64, Vec<Tuple>> = HashMap::new();
+    let mut next_key: i64 = r.range(-50, 50);
+    ctx.eval();
+    ctx.nontrivial(crate::rng::hash_str(&format!("growth{k}")));
+    let mut ops = 0usize;
+    while model.len() < target && ops < 4 * target {
+        ops += 1;
+        let roll = r.below(10);
+        if roll < 7 || model.is_empty() {
+            // new key (mostly) or a second tuple for an existing key
+            let key = if roll == 0 && !model.is_empty() { *model.keys().next().unwrap_or(&next_key) } else { next_key += 1 + r.range(0, 2); next_key };
+            let t = crate::store::ituple(&[key, r.range(0, 3)]);
+            idx.insert(t.clone());
+            model.entry(key).or_default().push(t);
+            let kt = crate::store::ituple(&[key]);
+            let want = multiset(&model[&key]);
+            let got = multiset(&idx.probe(&kt).cloned().collect::<Vec<_>>());
+            if got != want || !idx.might_contain_key(&kt) || idx.get(&kt).map(|v| multiset(v)).unwrap_or_default() != want {
+                ctx.violation(k, "C36:index:growth:key-lost-right-after-insert", format!("after inserting key {key} as distinct key #{} (index created for {expected} keys) probe/get/might_contain_key do not return it", model.len()), json!({"expected_keys": expected, "distinct_keys": model.len(), "key": key}));
+                return;
+            }
+        } else {
+            let key = *model.keys().nth(r.below(model.len().min(8))).unwrap_or(&0);
+            let v = model.get_mut(&key).unwrap();
+            let t = v.pop().unwrap();
+            if v.is_empty() {
+                model.remove(&key);
+            }
+            if !idx.remove(&t) {
+                ctx.violation(k, "C36:index:growth:remove-report", "remove of a stored tuple returned false".into(), json!({"expected_keys": expected, "key": key}));
+                return;
+            }
+        }
+        if ops % 97 == 0 || model.len() == target {
+            ctx.evals(1);
+            for (key, ts) in &model {
+                let kt = crate::store::ituple(&[*key]);
+                let got = multiset(&idx.probe(&kt).cloned().collect::<Vec<_>>());
+                if got != multiset(ts) || !idx.might_contain_key(&kt) {
+                    ctx.violation(k, "C36:index:growth:key-lost", format!("stored key {key} is not returned by probe / denied by the index's bloom filter with {} distinct keys (index created for {expected})", model.len()), json!({"expected_keys": expected, "distinct_keys": model.len(), "key": key, "ops": ops}));
+                    return;
+                }
+            }
+            if idx.stats().num_keys != model.len() || idx.len() != model.values().map(Vec::len).sum::<usize>() {
+                ctx.violation(k, "C36:index:growth:counts", "num_keys/len differ from the model".into(), json!({"expected_keys": expected, "distinct_keys": model.len()}));
+                return;
+            }
+        }
+    }
+    if k % 3 == 2 && k < 12 {
+        ctx.sample(json!({"kind": "hash_index_growth", "expected_keys": expected, "distinct_keys_reached": model.len(), "ops": ops}));
+    }
+}
+
 pub fn run(ctx: &mut Ctx) {
     let total = ctx.sz(1200, 24_000);
     for k in ctx.cases(total) {
         let res = guarded(|| {
             let mut sub = Ctx::new(ctx.id, ctx.tier, ctx.seed, ctx.shard, None);
-            if k % 2 == 0 {
+            if k % 12 == 5 {
+                growth_case(&mut sub, k);
+            } else if k % 2 == 0 {
                 bloom_case(&mut sub, k);
             } else {
                 index_case(&mut sub, k);
